@@ -9,6 +9,7 @@ import (
 	"sort"
 	"strconv"
 	"strings"
+	"sync"
 	"time"
 
 	"github.com/innovationb1ue/RedisGO/util"
@@ -27,18 +28,22 @@ type task struct {
 	MaxPat int
 	MaxSub int
 	Keys   bool // second phase: through the KEYS command
+	// byte-complete pass: ByteX = x+1 selects the families built from the byte x and every byte y
+	// (single bytes, escapes, one-member classes, ranges [x-y] in all spellings), matched against
+	// every one-byte subject; 0 = not a byte task
+	ByteX int
 }
 
 type viol struct {
 	Kind, Pattern, Subject, Detail, Shape string
-	Expected, Got                        bool
+	Expected, Got                         bool
 }
 
 type result struct {
 	Pairs, Corner, Meta, Broken int
-	KeysCalls               int
-	Viol                    []viol
-	Samples                 []string
+	KeysCalls                   int
+	Viol                        []viol
+	Samples                     []string
 }
 
 func skeleton(p string) string {
@@ -100,7 +105,11 @@ func worker(tb []byte, progress func()) []byte {
 		rt.CurMode = rt.Free
 		mgr := h.NewManager()
 		ctx := context.Background()
-		for _, s := range subjects(2) {
+		keyset := subjects(2)
+		if t.ByteX > 0 {
+			keyset = byteSubjects()
+		}
+		for _, s := range keyset {
 			if s == "" {
 				continue
 			}
@@ -134,6 +143,12 @@ func worker(tb []byte, progress func()) []byte {
 			sort.Strings(out)
 			return out, ""
 		}
+	}
+	if t.ByteX > 0 {
+		byteTask(&t, &res, addV, keysExec, mgrKeys)
+		progress()
+		b, _ := json.Marshal(res)
+		return b
 	}
 	var rec func(p string)
 	rec = func(p string) {
@@ -191,6 +206,9 @@ func worker(tb []byte, progress func()) []byte {
 		if len(p) >= t.MaxPat {
 			return
 		}
+		if len(p) <= len(t.Prefix)+1 {
+			progress()
+		}
 		for i := 0; i < len(patAlpha); i++ {
 			rec(p + string(patAlpha[i]))
 		}
@@ -201,6 +219,121 @@ func worker(tb []byte, progress func()) []byte {
 	progress()
 	b, _ := json.Marshal(res)
 	return b
+}
+
+// byteSubjects: the empty string and every one-byte string.
+func byteSubjects() []string {
+	out := []string{""}
+	for b := 0; b < 256; b++ {
+		out = append(out, string([]byte{byte(b)}))
+	}
+	return out
+}
+
+// byteSkeleton abstracts the two free bytes of a byte-pass pattern away (signature of a violation).
+func byteSkeleton(fam string, x, y int) string {
+	cls := func(b int) string {
+		switch {
+		case b < 0:
+			return ""
+		case b == 0:
+			return "00"
+		case b == 0xff:
+			return "ff"
+		case b >= 0x80:
+			return "hi"
+		case strings.IndexByte("*?[]^-\\", byte(b)) >= 0:
+			return "meta"
+		default:
+			return "lo"
+		}
+	}
+	return "byte:" + fam + ":" + cls(x) + ":" + cls(y)
+}
+
+// byteTask: the byte-complete pass for x = t.ByteX-1.  Patterns are built from raw bytes (a byte that
+// happens to be a metacharacter simply gives another pattern; the reference matcher parses whatever
+// results).  Every pattern is announced before it is matched, so that a matcher that never returns is
+// attributed to the exact pattern.
+func byteTask(t *task, res *result, addV func(viol), keysExec func(string) ([]string, string), mgrKeys []string) {
+	x := t.ByteX - 1
+	X := string([]byte{byte(x)})
+	subs := byteSubjects()
+	run := func(fam string, y int, p string, extra ...string) {
+		pool.Note([]byte(p))
+		g := model.CompileGlob(p)
+		shape := byteSkeleton(fam, x, y)
+		if t.Keys {
+			res.KeysCalls++
+			got, perr := keysExec(p)
+			if perr != "" {
+				addV(viol{Kind: "keys-panic", Pattern: p, Detail: perr, Shape: shape})
+			} else if !g.Corner {
+				var want []string
+				for _, k := range mgrKeys {
+					if g.Match(k) {
+						want = append(want, k)
+					}
+				}
+				sort.Strings(want)
+				if strings.Join(want, "\x00") != strings.Join(got, "\x00") {
+					addV(viol{Kind: "keys-mismatch", Pattern: p, Detail: fmt.Sprintf("KEYS %q: expected %d keys %.60q, got %d keys %.60q", p, len(want), want, len(got), got), Shape: shape})
+				}
+			}
+			return
+		}
+		ss := subs
+		if len(extra) > 0 {
+			ss = append(append([]string{}, subs...), extra...)
+		}
+		for _, s := range ss {
+			res.Pairs++
+			res.Meta++
+			if g.Corner {
+				res.Corner++
+			}
+			got, perr := safeMatch(p, s)
+			if perr != "" {
+				addV(viol{Kind: "panic", Pattern: p, Subject: s, Detail: perr, Shape: shape})
+				break
+			}
+			if g.Corner {
+				continue
+			}
+			want := g.Match(s)
+			if got != want {
+				addV(viol{Kind: "mismatch", Pattern: p, Subject: s, Expected: want, Got: got, Shape: shape + "=" + strconv.FormatBool(want),
+					Detail: fmt.Sprintf("PattenMatch(%q, %q) = %v, grammar says %v", p, s, got, want)})
+			}
+		}
+		if g.Broken {
+			res.Broken++
+		}
+	}
+	run("x", -1, X)
+	run("\\x", -1, "\\"+X)
+	run("[x]", -1, "["+X+"]")
+	run("[^x]", -1, "[^"+X+"]")
+	run("[\\x]", -1, "[\\"+X+"]")
+	run("[^\\x]", -1, "[^\\"+X+"]")
+	run("x*", -1, X+"*", X+X, X+"a")
+	run("*x", -1, "*"+X, X+X, "a"+X)
+	run("?x", -1, "?"+X, X+X, "a"+X)
+	for y := 0; y < 256; y++ {
+		Y := string([]byte{byte(y)})
+		run("[x-y]", y, "["+X+"-"+Y+"]")
+		run("[^x-y]", y, "[^"+X+"-"+Y+"]")
+		if !t.Keys {
+			run("[\\x-\\y]", y, "[\\"+X+"-\\"+Y+"]")
+			run("[x-\\y]", y, "["+X+"-\\"+Y+"]")
+			run("[ax-y]", y, "[a"+X+"-"+Y+"]")
+			run("xy", y, X+Y, X+Y, Y+X)
+			run("[xy]", y, "["+X+Y+"]")
+		}
+	}
+	if len(res.Samples) < 1 && !t.Keys {
+		res.Samples = append(res.Samples, fmt.Sprintf("byte pass x=0x%02x: patterns x, \\x, [x], [^x], [x-y], [^x-y], [\\x-\\y], [ax-y], xy, [xy] for every byte y x %d one-byte subjects", x, len(subs)))
+	}
 }
 
 func main() {
@@ -215,7 +348,7 @@ func main() {
 		maxPat, maxSub, keysPat = 6, 4, 5
 	}
 	rep := ev.NewReport("C17", "model_checking")
-	p := &pool.Pool{Handler: "globmc", N: 16, Timeout: 120 * time.Second, MemMB: 4096}
+	p := &pool.Pool{Handler: "globmc", N: 16, Timeout: 60 * time.Second, MemMB: 4096}
 	var tasks [][]byte
 	mk := func(prefix string, mp int, keys bool) {
 		b, _ := json.Marshal(task{Prefix: prefix, MaxPat: mp, MaxSub: maxSub, Keys: keys})
@@ -235,8 +368,36 @@ func main() {
 			}
 		}
 	}
+	// byte-complete pass: one task per byte value x (direct), and per x through KEYS on a keyspace of
+	// all 256 one-byte keys (thorough: every x; quick: the 24 bytes around the class boundaries)
+	byteTasks := 0
+	for x := 0; x < 256; x++ {
+		b, _ := json.Marshal(task{ByteX: x + 1})
+		tasks = append(tasks, b)
+		byteTasks++
+		if tier == "thorough" || x < 4 || x >= 252 || (x >= 0x7c && x < 0x84) || strings.IndexByte("*?[]^-\\a", byte(x)) >= 0 {
+			b, _ := json.Marshal(task{ByteX: x + 1, Keys: true})
+			tasks = append(tasks, b)
+			byteTasks++
+		}
+	}
 	var tot result
 	crashes := 0
+	// a matcher that never returns costs the hang bound once per task: after three such byte tasks the
+	// rest of the byte pass is cut (reported, exhaustive:false) - the counterexamples are on record
+	byteHangs, byteSkipped := 0, 0
+	var skipMu sync.Mutex
+	p.Skip = func(tb []byte) bool {
+		var t task
+		json.Unmarshal(tb, &t)
+		skipMu.Lock()
+		defer skipMu.Unlock()
+		if t.ByteX > 0 && byteHangs >= 3 {
+			byteSkipped++
+			return true
+		}
+		return false
+	}
 	p.Map(tasks, func(tb, out []byte, crash *pool.Crash) [][]byte {
 		var t task
 		json.Unmarshal(tb, &t)
@@ -245,6 +406,16 @@ func main() {
 			kind := "hang"
 			if crash.Kind != "hang" {
 				kind = "crash"
+			}
+			if t.ByteX > 0 {
+				skipMu.Lock()
+				byteHangs++
+				skipMu.Unlock()
+				pat := string(crash.Last)
+				rep.Add(&ev.Violation{Engine: "globmc", Kind: kind, Cmd: "patternmatch", Shape: fmt.Sprintf("byte:x=%02x:%s", t.ByteX-1, byteClassOfPattern(pat)),
+					Detail: fmt.Sprintf("worker %s while matching pattern %q (byte pass, via KEYS: %v): %s", crash.Kind, pat, t.Keys, crash.Detail),
+					Replay: map[string]interface{}{"engine": "globmc", "pattern": pat, "subject": "a", "expected": model.GlobMatch(pat, "a"), "got": false, "via_keys": t.Keys, "hang": kind == "hang"}})
+				return nil
 			}
 			rep.Add(&ev.Violation{Engine: "globmc", Kind: kind, Cmd: "patternmatch", Shape: skeleton(t.Prefix) + "...",
 				Detail: fmt.Sprintf("worker %s while matching patterns with prefix %q: %s", crash.Kind, t.Prefix, crash.Detail),
@@ -275,24 +446,46 @@ func main() {
 		tot.Samples = []string{"(none)"}
 	}
 	cov := map[string]interface{}{
-		"states":                        tot.Pairs + tot.KeysCalls,
-		"transitions":                   tot.Pairs + tot.KeysCalls,
-		"traces_validated_against_impl": tot.Pairs + tot.KeysCalls,
-		"samples":                       tot.Samples,
-		"exhaustive":                    crashes == 0,
-		"pairs":                         tot.Pairs,
-		"pairs_with_metacharacter":      tot.Meta,
-		"pairs_in_unspecified_corners":  tot.Corner,
-		"broken_patterns":               tot.Broken,
-		"keys_commands":                 tot.KeysCalls,
-		"pattern_alphabet":              patAlpha,
-		"subject_alphabet":              subAlpha,
-		"max_pattern_len":               maxPat,
-		"max_subject_len":               maxSub,
-		"keys_max_pattern_len":          keysPat,
-		"rule":                          "every pattern up to the length bound over {a,b,*,?,[,],^,-,\\} against every subject up to the length bound over {a,b,c,-,],^}: util.PattenMatch vs an independent reference matcher of the documented grammar; then every pattern through KEYS on a keyspace holding all subjects of length<=2 and one expired key. Corners the grammar leaves open (empty class, '-' first/last in a class, reversed range, '^' not first, escaped range endpoint) are computed but excluded from the verdict",
+		"states":                          tot.Pairs + tot.KeysCalls,
+		"transitions":                     tot.Pairs + tot.KeysCalls,
+		"traces_validated_against_impl":   tot.Pairs + tot.KeysCalls,
+		"samples":                         tot.Samples,
+		"exhaustive":                      crashes == 0 && byteSkipped == 0,
+		"byte_pass_tasks_cut_after_hangs": byteSkipped,
+		"pairs":                           tot.Pairs,
+		"pairs_with_metacharacter":        tot.Meta,
+		"pairs_in_unspecified_corners":    tot.Corner,
+		"broken_patterns":                 tot.Broken,
+		"keys_commands":                   tot.KeysCalls,
+		"pattern_alphabet":                patAlpha,
+		"subject_alphabet":                subAlpha,
+		"max_pattern_len":                 maxPat,
+		"max_subject_len":                 maxSub,
+		"keys_max_pattern_len":            keysPat,
+		"byte_pass_tasks":                 byteTasks,
+		"byte_pass":                       "for every byte x and every byte y (all 65536 pairs): patterns x, \\x, [x], [^x], [\\x], x*, *x, ?x, [x-y], [^x-y], [\\x-\\y], [x-\\y], [ax-y], xy, [xy] against the empty and every one-byte subject; [x-y] and [^x-y] also through KEYS on a keyspace of all 256 one-byte keys",
+		"rule":                            "every pattern up to the length bound over {a,b,*,?,[,],^,-,\\} against every subject up to the length bound over {a,b,c,-,],^}: util.PattenMatch vs an independent reference matcher of the documented grammar; then every pattern through KEYS on a keyspace holding all subjects of length<=2 and one expired key. Corners the grammar leaves open (empty class, '-' first/last in a class, reversed range, '^' not first, escaped range endpoint) are computed but excluded from the verdict",
 	}
 	os.Exit(rep.Finish(cov, []string{"reference matcher verif/model/glob.go encodes the grammar of the property statement"}))
+}
+
+func byteClassOfPattern(p string) string {
+	var b strings.Builder
+	for i := 0; i < len(p); i++ {
+		switch c := p[i]; {
+		case strings.IndexByte("*?[]^-\\", c) >= 0:
+			b.WriteByte(c)
+		case c == 0xff:
+			b.WriteString("<ff>")
+		case c == 0:
+			b.WriteString("<00>")
+		case c >= 0x80:
+			b.WriteString("<hi>")
+		default:
+			b.WriteByte('L')
+		}
+	}
+	return b.String()
 }
 
 func replay(path string) int {
@@ -310,7 +503,25 @@ func replay(path string) int {
 	json.Unmarshal(b, &v)
 	n := 0
 	for i := 0; i < 2; i++ {
-		got, perr := safeMatch(v.Replay.Pattern, v.Replay.Subject)
+		type mr struct {
+			got  bool
+			perr string
+		}
+		ch := make(chan mr, 1)
+		go func() {
+			g, pe := safeMatch(v.Replay.Pattern, v.Replay.Subject)
+			ch <- mr{g, pe}
+		}()
+		var got bool
+		var perr string
+		select {
+		case r := <-ch:
+			got, perr = r.got, r.perr
+		case <-time.After(20 * time.Second):
+			fmt.Printf("PattenMatch(%q,%q) did not return within 20 s (reference: %d steps)\n", v.Replay.Pattern, v.Replay.Subject, model.CompileGlob(v.Replay.Pattern).Steps)
+			fmt.Println("reproduced: the matcher does not terminate")
+			return 1
+		}
 		want := model.GlobMatch(v.Replay.Pattern, v.Replay.Subject)
 		fmt.Printf("PattenMatch(%q,%q) = %v panic=%q ; reference = %v\n", v.Replay.Pattern, v.Replay.Subject, got, perr, want)
 		if perr != "" || got != want {
